@@ -87,8 +87,7 @@ func InsertOption82(pkt []byte, opt82 []byte, policy string) []byte {
 	}
 
 	endIdx := -1
-	existing82Start := -1
-	existing82End := -1
+	var existing82 [][2]int
 
 	i := optStart
 	for i < len(pkt) {
@@ -109,8 +108,7 @@ func InsertOption82(pkt []byte, opt82 []byte, policy string) []byte {
 			break
 		}
 		if code == OptRelayAgentInfo {
-			existing82Start = i
-			existing82End = i + 2 + optLen
+			existing82 = append(existing82, [2]int{i, i + 2 + optLen})
 		}
 		i += 2 + optLen
 	}
@@ -121,21 +119,18 @@ func InsertOption82(pkt []byte, opt82 []byte, policy string) []byte {
 
 	switch policy {
 	case "keep":
-		if existing82Start >= 0 {
+		if len(existing82) > 0 {
 			return pkt
 		}
 	case "drop":
-		if existing82Start >= 0 {
-			return removeRange(pkt, existing82Start, existing82End)
-		}
-		return pkt
+		return removeRanges(pkt, existing82)
 	}
 
-	// "replace" (default): remove existing, insert new
-	if existing82Start >= 0 {
-		pkt = removeRange(pkt, existing82Start, existing82End)
-		endIdx -= (existing82End - existing82Start)
+	// "replace" (default): remove every existing instance, insert new
+	for _, r := range existing82 {
+		endIdx -= r[1] - r[0]
 	}
+	pkt = removeRanges(pkt, existing82)
 
 	// Insert opt82 before the End option
 	result := make([]byte, 0, len(pkt)+len(opt82))
@@ -146,13 +141,14 @@ func InsertOption82(pkt []byte, opt82 []byte, policy string) []byte {
 	return result
 }
 
-// StripOption82 removes Option 82 from a raw DHCPv4 packet.
+// StripOption82 removes every Option 82 from a raw DHCPv4 packet.
 func StripOption82(pkt []byte) []byte {
 	optStart := 240
 	if len(pkt) < optStart {
 		return pkt
 	}
 
+	var existing82 [][2]int
 	i := optStart
 	for i < len(pkt) {
 		if pkt[i] == 0 {
@@ -171,11 +167,19 @@ func StripOption82(pkt []byte) []byte {
 			break
 		}
 		if code == OptRelayAgentInfo {
-			return removeRange(pkt, i, i+2+optLen)
+			existing82 = append(existing82, [2]int{i, i + 2 + optLen})
 		}
 		i += 2 + optLen
 	}
-	return pkt
+	return removeRanges(pkt, existing82)
+}
+
+// removeRanges removes the given ascending, non-overlapping [start,end) ranges.
+func removeRanges(data []byte, ranges [][2]int) []byte {
+	for k := len(ranges) - 1; k >= 0; k-- {
+		data = removeRange(data, ranges[k][0], ranges[k][1])
+	}
+	return data
 }
 
 func removeRange(data []byte, start, end int) []byte {
